@@ -1,4 +1,11 @@
-"""Translator for C10: the constants of the method-call dispatcher in txdbus/objects.py.
+"""Translator for C10 (also read by C11, C16): the constants of the method-call dispatcher in txdbus/objects.py.
+
+TWO ROUTES.  (1) Probing (always): every entry is derived by executing the dispatcher of the tree under
+test - scenario probes on the real `handleMethodCallMessage` with a stub connection (see `probe_tables`):
+built-in calls, error names and texts per failed check, order of checks, attribute prefix, caller keyword and
+its rule, reply / no-reply rule, send_error's naming and escaping.  (2) AST (cross-check): the shapes described
+below; where a shape is recognised the two routes must agree (else TranslatorError), where it is not the
+reason goes to ADVISORIES (the pipeline then widens the correspondence run instead of reporting a broken table).
 
 Reads the AST of `DBusObjectHandler.handleMethodCallMessage`, `DBusObject.executeMethod` and
 `DBusObject._set_method_flags` (source of the working tree under test) and writes
@@ -611,11 +618,11 @@ def probe_tables(repo):
         return replies[0].error_name, (replies[0].body[0] if replies[0].body else '')
     errs = {}
     # unknown object (also: unknown member and wrong signature at the same time -> which check is first)
-    n, t = one_err(*_call(h1, '/nope/zz', 'Nope', 'no.such.Iface', 'ayu', [b'', 1]), what='unknown object')
+    n, t = one_err(*_call(h1, '/nope/zz', 'Nope', 'no.such.Iface', 'ayu', [[], 1]), what='unknown object')
     slots = {'path': '/nope/zz', 'member': 'Nope', 'sigOr': 'ayu', 'ifaceOr': 'no.such.Iface'}
     errs['unknownObject'] = (n, _pieces_from_text(t, slots, n))
     # unknown method (member unknown AND signature wrong: member check first)
-    n, t = one_err(*_call(h1, MK_PATH, 'Nope', MK_IFACE, 'ayu', [b'', 1]), what='unknown method')
+    n, t = one_err(*_call(h1, MK_PATH, 'Nope', MK_IFACE, 'ayu', [[], 1]), what='unknown method')
     slots = {'path': MK_PATH, 'member': 'Nope', 'sigOr': 'ayu', 'ifaceOr': MK_IFACE}
     ps = _pieces_from_text(t, slots, n)
     n2, t2 = one_err(*_call(h1, MK_PATH, 'Nope', None, None, None), what='unknown method without interface / signature')
@@ -623,7 +630,7 @@ def probe_tables(repo):
         raise TranslatorError('unknown member with and without interface give different errors: %r %r' % (n, n2))
     # defaults: one slot at a time
     _, t_sig = one_err(*_call(h1, MK_PATH, 'Nope', MK_IFACE, None, None), what='unknown method, no signature')
-    _, t_if = one_err(*_call(h1, MK_PATH, 'Nope', None, 'ayu', [b'', 1]), what='unknown method, no interface')
+    _, t_if = one_err(*_call(h1, MK_PATH, 'Nope', None, 'ayu', [[], 1]), what='unknown method, no interface')
     out = []
     for p in ps:
         if p[0] == 'sigOr':
@@ -635,11 +642,11 @@ def probe_tables(repo):
     errs['unknownMethod'] = (n, out)
     um_name = n
     # invalid args: declared 'uay', sent 'ayu'
-    n, t = one_err(*_call(h1, MK_PATH, MK_MEMBER, MK_IFACE, 'ayu', [b'', 1]), what='invalid args')
+    n, t = one_err(*_call(h1, MK_PATH, MK_MEMBER, MK_IFACE, 'ayu', [[], 1]), what='invalid args')
     slots = {'path': MK_PATH, 'member': MK_MEMBER, 'sigOr': 'ayu', 'ifaceOr': MK_IFACE, 'sigInOr': 'uay'}
     ps = _pieces_from_text(t, slots, n)
     _, t_sig = one_err(*_call(h1, MK_PATH, MK_MEMBER, MK_IFACE, None, None), what='invalid args, no signature')
-    _, t_in = one_err(*_call(h1, MK_PATH, 'Zq7NoArgs', MK_IFACE, 'ayu', [b'', 1]), what='invalid args, none declared')
+    _, t_in = one_err(*_call(h1, MK_PATH, 'Zq7NoArgs', MK_IFACE, 'ayu', [[], 1]), what='invalid args, none declared')
     slots_in = dict(slots, member='Zq7NoArgs')
     out = []
     for p in ps:
@@ -669,9 +676,11 @@ def probe_tables(repo):
         chi.p = None
     except Exception:
         pass
+    from txdbus import message
     try:
-        hp.getManagedObjects(MK_PATH)
-        raise TranslatorError('probe: a None property value no longer makes getManagedObjects fail')
+        message.MethodReturnMessage(1, body=[hp.getManagedObjects(MK_PATH)], destination=':1.1',
+                                    signature=builtin['managed'][1])
+        raise TranslatorError('probe: a None property value no longer makes the GetManagedObjects reply fail')
     except TranslatorError:
         raise
     except Exception as e:      # noqa
@@ -820,7 +829,13 @@ def tables(repo):
     if 'caller_min' in a:
         same('caller_min', max(a['caller_min'], 1), t['caller_min'])
     if 'builtin' in a:
-        same('builtin', a['builtin'], t['builtin'])
+        for r in ('peer', 'introspect', 'managed'):
+            same('builtin pair ' + r, a['builtin'][r][0], t['builtin'][r][0])
+            if a['builtin'][r][1] is not None:       # the reply may be built in a helper the AST route does not follow
+                same('reply signature ' + r, a['builtin'][r][1], t['builtin'][r][1])
+            elif t['builtin'][r][1] is not None:
+                ADVISORIES.append('the %s reply is not built under its interface/member test; its signature was derived '
+                                  'by probing the dispatcher' % r)
     if 'errs' in a:
         for r in ('unknownObject', 'managedFailed', 'unknownMethod', 'invalidArgs'):
             same('errs.' + r, (a['errs'][r][0], _norm_pieces(a['errs'][r][1])), (t['errs'][r][0], _norm_pieces(t['errs'][r][1])))
@@ -833,9 +848,9 @@ def emit(repo):
     t = tables(repo)
     o = []
     o.append('/-')
-    o.append('GENERATED by tools/tables/c10_dispatch.py from the AST of txdbus/objects.py of the repository')
-    o.append('under test (DBusObjectHandler.handleMethodCallMessage, DBusObject.executeMethod,')
-    o.append('DBusObject._set_method_flags).  Do not edit: regenerated on every run.')
+    o.append('GENERATED by tools/tables/c10_dispatch.py from txdbus/objects.py of the repository under test:')
+    o.append('derived by probing the real DBusObjectHandler.handleMethodCallMessage with a stub connection and')
+    o.append('cross-checked against the AST where its shape is recognised.  Do not edit: regenerated on every run.')
     o.append('-/')
     o.append('namespace Txdbus.Gen.Dispatch')
     o.append('')
@@ -885,6 +900,12 @@ def emit(repo):
     o.append('/-- `_set_method_flags`: `len(args) >= callerMinArgs and args[-1] == callerKeyword`. -/')
     o.append('def callerKeyword : String := ' + _lean_str(t['caller_kw']))
     o.append('def callerMinArgs : Nat := %d' % t['caller_min'])
+    o.append('/-- The order of the dispatcher\'s checks, from probes in which two checks would fire. -/')
+    o.append('def checkOrder : List String := [' + ', '.join(_lean_str(x) for x in t['order']) + ']')
+    o.append('/-- Reply rule, from probes: a dispatched call that expects a reply is answered; a dispatched no-reply')
+    o.append('call is not; a failed lookup is answered even when the call is flagged no-reply. -/')
+    for k in ('dispatchedExpectingReplyAnswered', 'dispatchedNoReplySilent', 'lookupFailureAnsweredWhenNoReply'):
+        o.append('def %s : Bool := %s' % (k, 'true' if t['reply_rule'][k] else 'false'))
     o.append('')
     o.append('end Txdbus.Gen.Dispatch')
     return '\n'.join(o) + '\n'
@@ -892,4 +913,10 @@ def emit(repo):
 
 if __name__ == '__main__':
     import sys
-    print(emit(sys.argv[1] if len(sys.argv) > 1 else '/repo'))
+    _repo = sys.argv[1] if len(sys.argv) > 1 else '/repo'
+    sys.path.insert(0, os.path.dirname(os.path.dirname(os.path.dirname(os.path.abspath(__file__)))))
+    from vlib import ctx as _ctx
+    _ctx.use_repo(_repo)
+    print(emit(_repo))
+    for _a in ADVISORIES:
+        print('-- advisory:', _a, file=sys.stderr)
